@@ -122,6 +122,23 @@ CHECKS = {
             'cube is executed; meaning preservation of shown/re-parsed VCs; eval_Sem final states against the interpreter.',
             'Trusts vf/oracle_c20_lang.py (interpreter, evaluators, Z3 unsat as "VC valid").',
             'DESIGN.md 2 C20'),
+    'C10': ('contract on get_proof_term of every Conv subclass (class attributes wrapped after import; outermost calls fully judged, '
+            'inner calls by a light contract) + harness-level canonicity of the nat / real / propositional normalisers on '
+            'value-preserving rearrangements',
+            'Exploration: conversions observed during library replay and on generated binder terms (result is an equation about '
+            'exactly the given term, hypotheses only from supplied conditions, exported proof accepted by the checker, own eval = '
+            'proof term); pairs of rearranged polynomial expressions and of conjunctions/disjunctions with equal member sets must '
+            'get identical normal forms, idempotently and value-preservingly.',
+            'Trusts vf/shadow.py and vf/arith.py; integer normal forms are observed but not judged (statement names naturals and reals).',
+            'DESIGN.md 2 C10'),
+    'C11': ('monitor on parse_item / get_extension / unchecked_extend and the export / display / parse_edit round trips following '
+            'the protocol of server.monitor.check_theory; independent signature, conservativity and well-formedness oracles on shadows',
+            'Exploration: all 4041 items of the 43 library files plus generated definitions, datatypes, inductive predicates and '
+            'recursive functions including adversarial ones; accepted definitions must satisfy the syntactic conservativity '
+            'conditions, every generated extension must be well-typed over the extended signature, round trips are compared field '
+            'by field.',
+            'Trusts vf/oracle_c11_sig.py (own matcher/unifier on shadow types).',
+            'DESIGN.md 2 C11'),
 }
 
 NOT_YET = {}
